@@ -555,7 +555,7 @@ def run(ctx):
     hung = sum(1 for r in pool.run_jobs(__name__, probe, limit=6.0) if r.get("timeout"))
     if hung > 0.05 * len(probe):
         raise core.MachineryError("%d of %d probe calls did not return within 6 s" % (hung, len(probe)))
-    recs = [_fill(j, r) for j, r in zip(jobs, pool.run_jobs(__name__, jobs, limit=10.0, reuse=True, abort=True))]
+    recs = [_fill(j, r) for j, r in zip(jobs, pool.run_jobs(__name__, jobs, limit=10.0, reuse=True, abort=True, strict_fp=True))]
     # the few large records are judged beside the many small ones
     big = [k for k, j in enumerate(jobs) if j["src"].startswith("big-")]
     small = [k for k, j in enumerate(jobs) if not j["src"].startswith("big-")]
